@@ -15,7 +15,7 @@ func main() {
 	for i := 0; i < 12; i++ {
 		r := rand.New(rand.NewPCG(7, uint64(i)))
 		w := gen.NewWorld(r)
-		p := gen.FieldTx(r)
+		p := gen.MultiAccountTx(r)
 		for _, eng := range host.AllEngines {
 			h := host.New()
 			d := h.Deploy(eng, host.Addr(1), "C0", gen.ContractSource(w))
@@ -24,8 +24,14 @@ func main() {
 				continue
 			}
 			h.ResetTrace()
-			o := h.RunTx(eng, p.Source, nil, []common.Address{host.Addr(1)}, nil)
-			fmt.Println(i, eng, p.Features, "uuids", h.UUIDs, "events", len(h.Events), "err:", host.ErrKinds(o.Err))
+			o := h.RunTx(eng, p.Source, nil, []common.Address{host.Addr(1), host.Addr(2), host.Addr(3), host.Addr(4), host.Addr(5)}[:p.Signers], nil)
+			var w []string
+			for _, r := range h.Recs {
+				if r.Kind == host.KSetValue && len(r.A) < 40 {
+					w = append(w, r.A[:16])
+				}
+			}
+			fmt.Println(i, eng, "writes", w, "err:", host.ErrKinds(o.Err))
 			if o.Err != nil && eng == host.EngI {
 				fmt.Println(p.Source)
 				fmt.Println(host.ErrText(o))
